@@ -299,6 +299,8 @@ def r_flow_parse(ctx) -> RuleResult:
     for n in own_walk(init.node):
         if isinstance(n, ast.Assign) and isinstance(n.targets[0], ast.Attribute) and isinstance(n.targets[0].value, ast.Name) and n.targets[0].value.id == "self":
             fields[n.targets[0].attr] = n.value
+        if isinstance(n, ast.AnnAssign) and isinstance(n.target, ast.Attribute) and isinstance(n.target.value, ast.Name) and n.target.value.id == "self" and n.value is not None:
+            fields[n.target.attr] = n.value
     uses: dict[str, list] = {k: [] for k in fields}
     parents = {}
     for m in lis.methods.values():
